@@ -174,7 +174,7 @@ func TestC05(t *testing.T) {
 		for c := range ref.Classes {
 			classes = append(classes, c)
 		}
-		classes = append(classes, "split:"+mode, fmt.Sprintf("overwrite:%v", overwrite))
+		classes = uniq(append(classes, "split:"+mode, fmt.Sprintf("overwrite:%v", overwrite)))
 		switch {
 		case !ref.ok():
 			classes = append(classes, "expect:fail")
@@ -199,13 +199,14 @@ func TestC05(t *testing.T) {
 		ctx := func() string {
 			return fmt.Sprintf("variant %s overwrite=%v\ntree a:\n%s\ntree b:\n%s", v.Name, overwrite, a.Dump(), b.Dump())
 		}
-		ab := runMerge(rt, rec, v, "a", "b", a, b, ref, overwrite, opts, ctx)
+		ex := newExcuser(rec)
+		ab := runMerge(rt, ex, v, "a", "b", a, b, ref, overwrite, opts, ctx)
 		if overwrite {
 			return
 		}
 		// swapped inputs: the same judgement, then commutativity
 		refBA := refMerge(b, a, false)
-		ba := runMerge(rt, rec, v, "b", "a", b, a, refBA, false, opts, ctx)
+		ba := runMerge(rt, ex, v, "b", "a", b, a, refBA, false, opts, ctx)
 		if ab.err == nil && ba.err == nil {
 			conf := map[string]bool{}
 			for _, lc := range ref.LeafFail {
@@ -213,10 +214,10 @@ func TestC05(t *testing.T) {
 			}
 			var bad []dItem
 			for _, it := range treeDiff(ab.res, ba.res, dOpts{OrdAsSet: true, LLSet: map[string]bool{"*": true}, ULSet: map[string]bool{"*": true}}) {
-				if it.F != nil && conf[it.Path] && isBinLeaf(it.F) && rec.Excuse(F8, true) {
+				if it.F != nil && conf[it.Path] && isBinLeaf(it.F) && ex.excuse(F8, true) {
 					continue // both orders wrongly succeeded on a binary leaf conflict: a+b vs b+a
 				}
-				if isEmptyLeaf(it.F) && (ref.LeafOnlyA[it.Path] || refBA.LeafOnlyA[it.Path]) && rec.Excuse(F51, true) {
+				if isEmptyLeaf(it.F) && (ref.LeafOnlyA[it.Path] || refBA.LeafOnlyA[it.Path]) && ex.excuse(F51, true) {
 					continue // the first input's leaf of type empty is lost in one of the two orders
 				}
 				bad = append(bad, it)
@@ -276,8 +277,68 @@ func f8ErrorOnly(err error, ref *refResult) bool {
 	return true
 }
 
+// f50UListErrorOnly: MergeStructs first deep-copies its first input; when that copy drops a zero-length
+// binary leaf inside an unkeyed-list element (F50), the element no longer equals its twin in the second
+// input and the equal lists are rejected as "overlapping". Signature: every error line is the uniqueness
+// complaint about an unkeyed list, and the first input holds such a leaf inside an unkeyed-list element.
+func f50UListErrorOnly(err error, x *model.Node) bool {
+	msg := strings.TrimPrefix(err.Error(), "error merging b to new struct: ")
+	for _, line := range strings.Split(msg, "\n") {
+		line = strings.TrimSpace(line)
+		if line == "" {
+			continue
+		}
+		i := strings.Index(line, ": source and destination lists must be unique")
+		if i < 0 {
+			return false
+		}
+		ap := line[:i]
+		j := strings.LastIndex(ap, ".")
+		if j < 0 || !isUListName(x, ap[j+1:]) {
+			return false
+		}
+	}
+	return emptyBinaryInUList(x, false)
+}
+
+// isUListName reports whether some populated unkeyed list of the tree has this Go field name.
+func isUListName(n *model.Node, name string) bool {
+	return n.AnyField(func(o *model.Node, f *model.FieldInfo) bool { return f.Kind == model.FUList && f.Name == name })
+}
+
+func emptyBinaryInUList(n *model.Node, inUL bool) bool {
+	if n == nil {
+		return false
+	}
+	for _, f := range n.SI.Fields {
+		switch f.Kind {
+		case model.FLeaf:
+			if v, ok := n.Leaf[f.Name]; ok && inUL && isBinLeaf(f) && len(v.B) == 0 {
+				return true
+			}
+		case model.FCont:
+			if emptyBinaryInUList(n.Cont[f.Name], inUL) {
+				return true
+			}
+		case model.FList, model.FOrdList:
+			for _, e := range n.List[f.Name] {
+				if emptyBinaryInUList(e.N, inUL) {
+					return true
+				}
+			}
+		case model.FUList:
+			for _, e := range n.UList[f.Name] {
+				if emptyBinaryInUList(e, true) {
+					return true
+				}
+			}
+		}
+	}
+	return false
+}
+
 // runMerge calls MergeStructs(x, y) on fresh builds and judges verdict, result and non-mutation.
-func runMerge(rt *rapid.T, rec *ev.Rec, v *model.Variant, nx, ny string, x, y *model.Node, ref *refResult, overwrite bool, opts []ygot.MergeOpt, ctx func() string) mergeCase {
+func runMerge(rt *rapid.T, ex *excuser, v *model.Variant, nx, ny string, x, y *model.Node, ref *refResult, overwrite bool, opts []ygot.MergeOpt, ctx func() string) mergeCase {
 	gx, gy := model.Build(x), model.Build(y)
 	r, err := ygot.MergeStructs(gx, gy, opts...)
 	call := fmt.Sprintf("MergeStructs(%s, %s)", nx, ny)
@@ -304,8 +365,8 @@ func runMerge(rt *rapid.T, rec *ev.Rec, v *model.Variant, nx, ny string, x, y *m
 		var bad []string
 		for _, fr := range ref.Fail {
 			switch {
-			case fr.Kind == "binleaf" && rec.Excuse(F8, true):
-			case fr.Kind == "ord-bfirstnew" && rec.Excuse(F52, true):
+			case fr.Kind == "binleaf" && ex.excuse(F8, true):
+			case fr.Kind == "ord-bfirstnew" && ex.excuse(F52, true):
 			default:
 				bad = append(bad, fr.String())
 			}
@@ -314,7 +375,7 @@ func runMerge(rt *rapid.T, rec *ev.Rec, v *model.Variant, nx, ny string, x, y *m
 			rt.Fatalf("%s succeeded but must fail:\n  %s\nresult:\n%s\n%s", call, strings.Join(bad, "\n  "), mc.res.Dump(), ctx())
 		}
 	case ref.ok() && ref.specified() && err != nil:
-		if !(overwrite && rec.Excuse(F8, f8ErrorOnly(err, ref))) {
+		if !(overwrite && ex.excuse(F8, f8ErrorOnly(err, ref))) && !ex.excuse(F50, f50UListErrorOnly(err, x)) {
 			rt.Fatalf("%s failed but the pair is mergeable (no leaf conflict%s, lists equal or disjoint, ordered lists disjoint or subset): %v\n%s",
 				call, map[bool]string{true: " that matters with overwrite", false: ""}[overwrite], err, ctx())
 		}
@@ -328,9 +389,9 @@ func runMerge(rt *rapid.T, rec *ev.Rec, v *model.Variant, nx, ny string, x, y *m
 		var bad []dItem
 		for _, it := range treeDiff(ref.Tree, mc.res, dOpts{LLSet: ref.LLBoth, ULSet: ref.ULBoth}) {
 			switch {
-			case rec.Excuse(F50, isF50(it)):
-			case overwrite && isBinLeaf(it.F) && conf[it.Path] && rec.Excuse(F8, true):
-			case rec.Excuse(F51, isF51(it, ref)):
+			case ex.excuse(F50, isF50(it)):
+			case overwrite && isBinLeaf(it.F) && conf[it.Path] && ex.excuse(F8, true):
+			case ex.excuse(F51, isF51(it, ref)):
 			default:
 				bad = append(bad, it)
 			}
